@@ -2,6 +2,7 @@ package main
 
 import (
 	"bytes"
+	"net"
 	"fmt"
 	"sync/atomic"
 	"time"
@@ -82,6 +83,9 @@ func c05Inject(c *Ctx) {
 			outcome := "verify:" + vr.ErrAt
 			if vr.Shared != nil {
 				outcome = "verified"
+				if v != "none" {
+					cl.timeout = 400 * time.Millisecond // an accessory that waits for the rest of a "frame" does not answer; do not wait long
+				}
 				switch v {
 				case "after-answer":
 					cl.send(foreign) // still without the session: plaintext on the wire
@@ -118,4 +122,66 @@ func c05Inject(c *Ctx) {
 			c.Count(id, v != "none", "stream:inject", "inject:"+v+":"+outcome)
 		}
 	}
+	// ---- cross-session replay: everything a genuine controller put on the wire in one session (pair-verify start and
+	// finish, then the encrypted request that switches the lamp) is sent again, byte for byte, on a new connection
+	for i := 0; i < c.Pick(3, 40); i++ {
+		id := fmt.Sprintf("inject#replay-session.%d", i)
+		if c.Skip(id) {
+			continue
+		}
+		cl, err := acc.Dial()
+		if err != nil {
+			continue
+		}
+		rec := &recConn{Conn: cl.conn}
+		cl.conn = rec
+		vr := refPairVerify(r, cl.Post(), ident, sr.AccLTPK)
+		if vr.Shared == nil {
+			c.Violate("paired reference controller cannot verify", id, nil, "verified", vr.ErrAt)
+			cl.Close()
+			continue
+		}
+		cl.Upgrade(vr.Shared)
+		body := fmt.Sprintf(`{"characteristics":[{"aid":%d,"iid":%d,"value":%v}]}`, aid, iid, i%2 == 0)
+		if m, err := cl.Do("PUT", "/characteristics", "application/hap+json", []byte(body)); err != nil || m.Status != 204 {
+			c.Violate("verified reference controller cannot write a characteristic", id, nil, "204", fmt.Sprint(m, err))
+		}
+		cl.Close()
+		sw.Switch.On.SetValue(i%2 != 0) // the owner switches back; the replayed write would be a change again
+		before := atomic.LoadInt32(&remote)
+		ad, err := acc.Dial()
+		if err != nil {
+			continue
+		}
+		answered := 0
+		buf := make([]byte, 65536)
+		for _, w := range rec.writes {
+			ad.conn.SetDeadline(time.Now().Add(700 * time.Millisecond))
+			if _, err := ad.conn.Write(w); err != nil {
+				break
+			}
+			if n, err := ad.conn.Read(buf); err != nil || n == 0 {
+				break
+			}
+			answered++
+		}
+		time.Sleep(20 * time.Millisecond)
+		ad.Close()
+		if got := atomic.LoadInt32(&remote); got != before {
+			c.Violate("a recorded session replayed on a new connection is accepted (frames of another session are decrypted and executed)", id,
+				map[string]interface{}{"recorded_writes": len(rec.writes)}, "pair-verify finish refused on the new connection; nothing executed", fmt.Sprintf("remote update callback ran %d time(s); %d of %d replayed messages were answered", got-before, answered, len(rec.writes)))
+		}
+		c.Count(id, true, "stream:inject", fmt.Sprintf("inject:replay-session:answered=%d/%d", answered, len(rec.writes)))
+	}
+}
+
+// recConn records what is written to a connection.
+type recConn struct {
+	net.Conn
+	writes [][]byte
+}
+
+func (r *recConn) Write(b []byte) (int, error) {
+	r.writes = append(r.writes, append([]byte{}, b...))
+	return r.Conn.Write(b)
 }
